@@ -238,9 +238,28 @@ func (r *Runner) ApplyOne(ctx context.Context, tarballPath string, opts ApplyOpt
 	if opts.FirstBoot {
 		startPhase = "first_boot_started"
 	}
+
+	// A --force-retry over an interrupted upgrade must keep rolling back to
+	// the snapshot that upgrade took: the installed tree may already be a
+	// mixture of N-1 and N, and a fresh snapshot of it (same rollback/<from>
+	// directory) would overwrite the only copy of N-1.
+	snapFrom := from
+	var keptSnapshot *SnapshotMetadata
+	if !opts.FirstBoot {
+		if prior, meta := r.interruptedSnapshot(); meta != nil {
+			if missing := artifactsNotInSnapshot(manifest, meta); len(missing) > 0 {
+				return nil, fmt.Errorf("force-retry: the interrupted upgrade %s → %s holds the only rollback snapshot of %s and it does not cover %v; run `osvbngcli upgrade rollback` before applying this tarball",
+					prior.From, prior.To, prior.From, missing)
+			}
+			snapFrom = prior.From
+			keptSnapshot = meta
+			startPhase = "retry_started"
+		}
+	}
+
 	journal := NewJournal(filepath.Join(r.StateRoot, "upgrade-state.json"))
 	if err := journal.Write(&JournalState{
-		From:      from,
+		From:      snapFrom,
 		To:        manifest.OsvbngVersion,
 		Tarball:   tarballPath,
 		StartedAt: time.Now().UTC(),
@@ -255,12 +274,23 @@ func (r *Runner) ApplyOne(ctx context.Context, tarballPath string, opts ApplyOpt
 		r.Reporter.Progress("no prior install; nothing to snapshot")
 	} else {
 		r.Reporter.Stage(5, totalStages, "Snapshotting current version")
-		snapDir, _, err = Snapshot(r.RollbackRoot, from, manifest.OsvbngVersion, manifest)
-		if err != nil {
-			return nil, err
-		}
-		if err := saveCurrentManifest(r.StateRoot, snapDir); err != nil {
-			return nil, fmt.Errorf("snapshot current-manifest: %w", err)
+		if keptSnapshot != nil {
+			snapDir = filepath.Join(r.RollbackRoot, snapFrom)
+			if planFromManifest(manifest).NeedsVPP && !keptSnapshot.NeedsVPP {
+				keptSnapshot.NeedsVPP = true
+				if err := writeSnapshotMetadata(snapDir, keptSnapshot); err != nil {
+					return nil, err
+				}
+			}
+			r.Reporter.Progress(fmt.Sprintf("keeping the snapshot of %s taken by the interrupted upgrade", snapFrom))
+		} else {
+			snapDir, _, err = Snapshot(r.RollbackRoot, from, manifest.OsvbngVersion, manifest)
+			if err != nil {
+				return nil, err
+			}
+			if err := saveCurrentManifest(r.StateRoot, snapDir); err != nil {
+				return nil, fmt.Errorf("snapshot current-manifest: %w", err)
+			}
 		}
 		if err := journal.SetPhase("snapshot_done"); err != nil {
 			return nil, err
@@ -640,6 +670,46 @@ func (r *Runner) verifyPrevManifest(staging *Staging, manifest *Manifest, curren
 
 	r.Reporter.Progress(fmt.Sprintf("prev-manifest verify OK (current=%s, prev=%s)", currentVersion, manifest.PreviousVersion))
 	return nil
+}
+
+// interruptedSnapshot returns the journal of an interrupted (neither
+// completed nor rolled back) upgrade together with its rollback snapshot
+// metadata, when that snapshot was completed. Phase "started" means the
+// snapshot never finished (nothing was modified yet, and metadata found
+// in the directory is left over from an earlier upgrade).
+func (r *Runner) interruptedSnapshot() (*JournalState, *SnapshotMetadata) {
+	state, err := NewJournal(filepath.Join(r.StateRoot, "upgrade-state.json")).Read()
+	if err != nil {
+		return nil, nil
+	}
+	switch state.Phase {
+	case "completed", "rolled_back", "started":
+		return nil, nil
+	}
+	if strings.HasPrefix(state.Phase, "first_boot_") {
+		return nil, nil
+	}
+	meta, err := LoadSnapshotMetadata(filepath.Join(r.RollbackRoot, state.From))
+	if err != nil {
+		return nil, nil
+	}
+	return state, meta
+}
+
+// artifactsNotInSnapshot lists the manifest's artifact paths that the
+// snapshot has no entry for.
+func artifactsNotInSnapshot(m *Manifest, meta *SnapshotMetadata) []string {
+	covered := make(map[string]bool, len(meta.Entries))
+	for _, e := range meta.Entries {
+		covered[e.Path] = true
+	}
+	var missing []string
+	for _, a := range m.Artifacts {
+		if !covered[a.Path] {
+			missing = append(missing, a.Path)
+		}
+	}
+	return missing
 }
 
 // checkPartialApply prevents a fresh apply from clobbering the journal
